@@ -77,6 +77,11 @@ func VerifC12Rows() {
 	var err error
 	route := verifChoose("route", 0, 13)
 	vfsReset()
+	if (route == 5 || route == 6 || route == 12 || route == 13) && verifFlag("targetIsFile") {
+		// the file-system routes in a hostile environment: the target directory is a regular file, so every Stat below
+		// it fails with an error that is not "does not exist"
+		vfsTargetAsFile()
+	}
 	vfsSeal()
 	calls := 0
 	verifContext("C12.rows")
